@@ -65,6 +65,8 @@ impl Exec for AnonymousFunction {
     fn exec(&self, interpreter: &mut Interpreter) -> ExecResult {
         let mut fn_local_variables = LocalVariables::from_params(self.params.clone(), interpreter);
         let body = recreate_instructions(&self.body, &mut fn_local_variables)?;
+        #[cfg(feature = "verif")]
+        crate::verif::closure_created(&body);
         Ok(Function {
             ident: None,
             params: self.params.clone(),
